@@ -313,7 +313,7 @@ pub fn c16_add_broadcast<S: Src>(s: &mut S) {
 
 /// `broadcast()`.
 pub fn c16_broadcast<S: Src>(s: &mut S, custom: usize) {
-    let mut sh = Shape::k(3);
+    let mut sh = Shape::k(2);
     sh.custom = custom;
     sh.backlog = 1;
     sh.handler_arb = true;
@@ -408,60 +408,43 @@ pub fn a_own_state_noop<S: Src>(s: &mut S) {
     vcover!(pre.n == 2 && pre.num_active == 1, "one active and one down record");
 }
 
-/// AccumulatingRuntime yields the same effects, per queue in the same order, as
-/// a directly implemented Runtime.
+/// AccumulatingRuntime yields the same notifications and timers, per queue in
+/// the same order, as a directly implemented Runtime (three calls, kinds symbolic).
 pub fn c08_accumulating_runtime<S: Src>(s: &mut S) {
+    accumulating(s, 0b101)
+}
+pub fn c08_accumulating_runtime_b<S: Src>(s: &mut S) {
+    accumulating(s, 0b010)
+}
+/// `mask`: which of the three calls are notifications (concrete: a symbolic call
+/// sequence makes the `VecDeque` ring arithmetic intractable); ids, tokens symbolic.
+fn accumulating<S: Src>(s: &mut S, mask: u8) {
     use crate::{AccumulatingRuntime, Notification, OwnedNotification, Runtime, Timer};
     let mut acc: AccumulatingRuntime<Id> = AccumulatingRuntime::new();
     let mut log = LogRt::new();
     let a = Id::arb(s);
     let b = Id::arb(s);
-    let k0 = s.below(3);
-    let k1 = s.below(3);
-    let k2 = s.below(3);
-    let payload = [s.u8(), s.u8(), s.u8()];
+    let k0 = mask & 1 != 0;
+    let k1 = mask & 2 != 0;
+    let k2 = mask & 4 != 0;
     let tok = s.u8();
-    // three calls, kinds symbolic (straight-line)
     macro_rules! call {
         ($k:expr, $id:expr, $n:expr) => {
-            match $k {
-                0 => {
-                    acc.notify(Notification::MemberUp(&$id));
-                    log.notify(Notification::MemberUp(&$id));
-                }
-                1 => {
-                    acc.send_to($id, &payload[..$n]);
-                    log.send_to($id, &payload[..$n]);
-                }
-                _ => {
-                    acc.submit_after(Timer::ProbeRandomMember(tok.wrapping_add($n as u8)), D_PERIOD);
-                    log.submit_after(Timer::ProbeRandomMember(tok.wrapping_add($n as u8)), D_PERIOD);
-                }
+            if $k {
+                acc.notify(Notification::MemberUp(&$id));
+                log.notify(Notification::MemberUp(&$id));
+            } else {
+                acc.submit_after(Timer::ProbeRandomMember(tok.wrapping_add($n)), D_PERIOD);
+                log.submit_after(Timer::ProbeRandomMember(tok.wrapping_add($n)), D_PERIOD);
             }
         };
     }
     call!(k0, a, 1);
     call!(k1, b, 2);
-    let _ = k2;
-    vassert!(acc.backlog() == log.ns + log.nt + log.nn, "c08: AccumulatingRuntime holds exactly the effects produced");
-    // drain each queue in order
+    call!(k2, a, 3);
+    vassert!(acc.backlog() == log.nt + log.nn, "c08: AccumulatingRuntime holds exactly the effects produced");
     let mut i = 0;
     while i < 3 {
-        if i < log.ns {
-            match acc.to_send() {
-                Some((dst, bytes)) => {
-                    vassert!(dst == log.sent[i].dst && bytes.len() == log.sent[i].len, "c08: AccumulatingRuntime yields the same datagrams in the same order");
-                    let mut j = 0;
-                    while j < 3 {
-                        if j < bytes.len() {
-                            vassert!(bytes[j] == log.sent[i].data[j], "c08: AccumulatingRuntime yields the datagram bytes unchanged");
-                        }
-                        j += 1;
-                    }
-                }
-                None => vassert!(false, "c08: AccumulatingRuntime loses no datagram"),
-            }
-        }
         if i < log.nt {
             match (acc.to_schedule(), &log.timers[i]) {
                 (Some((d, t)), Some((t2, d2))) => vassert!(d == *d2 && t == *t2, "c08: AccumulatingRuntime yields the same timers in the same order"),
@@ -478,8 +461,30 @@ pub fn c08_accumulating_runtime<S: Src>(s: &mut S) {
     }
     vassert!(acc.to_send().is_none() && acc.to_schedule().is_none() && acc.to_notify().is_none() && acc.backlog() == 0,
         "c08: AccumulatingRuntime yields nothing else");
-    vcover!(log.ns == 2, "two datagrams queued");
-    vcover!(log.nn == 1 && log.ns == 1, "a notification and a datagram");
+    vcover!(a != b, "two identities");
+}
+
+/// ... and the same datagrams: two `send_to` calls (concrete lengths, symbolic
+/// destinations and bytes) come back in order, byte for byte.
+pub fn c08_accumulating_send<S: Src>(s: &mut S) {
+    use crate::{AccumulatingRuntime, Runtime};
+    let mut acc: AccumulatingRuntime<Id> = AccumulatingRuntime::new();
+    let a = Id::arb(s);
+    let b = Id::arb(s);
+    let p = [s.u8(), s.u8(), s.u8()];
+    acc.send_to(a, &p[..2]);
+    acc.send_to(b, &p[..]);
+    vassert!(acc.backlog() == 2, "c08: AccumulatingRuntime holds exactly the effects produced");
+    match acc.to_send() {
+        Some((dst, bytes)) => vassert!(dst == a && bytes.len() == 2 && bytes[0] == p[0] && bytes[1] == p[1], "c08: AccumulatingRuntime yields the same datagrams in the same order"),
+        None => vassert!(false, "c08: AccumulatingRuntime loses no datagram"),
+    }
+    match acc.to_send() {
+        Some((dst, bytes)) => vassert!(dst == b && bytes.len() == 3 && bytes[0] == p[0] && bytes[2] == p[2], "c08: AccumulatingRuntime yields the datagram bytes unchanged"),
+        None => vassert!(false, "c08: AccumulatingRuntime loses no datagram"),
+    }
+    vassert!(acc.to_send().is_none() && acc.backlog() == 0, "c08: AccumulatingRuntime yields nothing else");
+    vcover!(a != b, "two destinations");
 }
 
 /// The update backlog is keyed by *address* (real `Broadcasts`, no stubs): two
@@ -502,8 +507,17 @@ fn key_by_addr<S: Src>(s: &mut S, same: bool) {
         conflict: ConflictResult::NoConflict,
     };
     let mut rt = LogRt::new();
-    let r1 = f.handle_apply_summary(ok.clone(), ua.clone(), true, &mut rt);
+    let r1 = f.handle_apply_summary(ok, ua.clone(), true, &mut rt);
     vassert!(r1.is_ok() && f.updates_backlog() == 1, "c15: an accepted update enters the backlog");
+    // the second update may also be reported as "registered a new active member"
+    // (a forgotten member coming back while an update about it is still pending)
+    let fresh = s.bool();
+    let ok = ApplySummary {
+        is_active_now: true,
+        apply_successful: true,
+        changed_active_set: fresh,
+        conflict: ConflictResult::NoConflict,
+    };
     let r2 = f.handle_apply_summary(ok, ub.clone(), true, &mut rt);
     vassert!(r2.is_ok(), "c06: queuing an update never fails with a total codec");
     let snap = f.updates.verif_snapshot();
@@ -527,6 +541,7 @@ fn key_by_addr<S: Src>(s: &mut S, same: bool) {
     let r3 = f.handle_apply_summary(ok2, ua, false, &mut rt);
     vassert!(r3.is_ok() && f.updates_backlog() == before, "c15: applying updates with broadcasting disabled leaves the backlog untouched");
     vcover!(a.gen != b.gen, "different generations");
+    vcover!(fresh, "returning member");
 }
 
 pub fn c15_key_same_addr<S: Src>(s: &mut S) {
@@ -534,4 +549,43 @@ pub fn c15_key_same_addr<S: Src>(s: &mut S) {
 }
 pub fn c15_key_diff_addr<S: Src>(s: &mut S) {
     key_by_addr(s, false)
+}
+
+/// `broadcast()` on the *real* backlog (no stubs): one pending item on its last
+/// transmission, two eligible members: exactly one Broadcast datagram is sent and
+/// the loop stops once the backlog is drained (also with updates pending).
+pub fn c16_broadcast_drain<S: Src>(s: &mut S) {
+    let mut sh = Shape::k(0);
+    sh.probe = false;
+    sh.fanout = Some(2);
+    let mut f = arb_foca(s, sh);
+    // two active, allowed members (concrete states: a symbolic selection would put the
+    // real heap operations under symbolic guards)
+    let a = Id::new(11, s.u8());
+    let b = Id::new(12, s.u8());
+    s.assume(f.identity.addr != 11 && f.identity.addr != 12);
+    let mut inner = Vec::with_capacity(4);
+    inner.push(crate::Member::new(a, s.u16(), State::Alive));
+    inner.push(crate::Member::new(b, s.u16(), State::Suspect));
+    f.members = crate::member::Members::verif_raw(inner, 0, 2);
+    f.connection_state = ConnectionState::Connected;
+    f.broadcast_handler = LogHandler::new(0, 0xFF);
+    // a pending update (never carried by Broadcast) and one item with a single transmission left
+    let mut upd = Vec::with_capacity(MEM);
+    upd.extend_from_slice(&[200, 1, 0, 0, 0]);
+    f.updates.verif_push_raw(crate::Addr(200), upd, 3);
+    let mut item = Vec::with_capacity(3);
+    item.extend_from_slice(&[100, 1, s.u8()]);
+    f.custom_broadcasts.verif_push_raw(BKey { k: 100, v: 1 }, item, 1);
+    let mut rt = LogRt::new();
+    let r = f.broadcast(&mut rt);
+    vassert!(r.is_ok(), "c06: broadcast never fails with a total codec");
+    vassert!(rt.ns == 1, "c16: broadcast() stops once the backlog is drained");
+    vassert!(rt.tag(0) == 9 && rt.sent[0].len == HDR + 5 && rt.sent[0].data[HDR] == 0 && rt.sent[0].data[HDR + 1] == 3 && rt.sent[0].data[HDR + 2] == 100,
+        "c16: the item is retransmitted byte-for-byte as a whole item on a Broadcast datagram");
+    vassert!(f.custom_broadcast_backlog() == 0 && f.updates_backlog() == 1, "c16: an item leaves the backlog after max_transmissions datagrams; Broadcast consumes no update");
+    let mut rt2 = LogRt::new();
+    let r2 = f.broadcast(&mut rt2);
+    vassert!(r2.is_ok() && rt2.ns == 0, "c16: broadcast() sends nothing when the backlog is empty");
+    vcover!(rt.sent[0].dst == b && a.gen != b.gen, "one member served, the other spared");
 }
